@@ -37,7 +37,7 @@ def main(spec=None, out=None):
     cachedmod = importlib.import_module("cachedmod")
     opts = spec.get("opts", {})
     kw = {}
-    if opts.get("compress"): kw["compress"] = opts["compress"]
+    if opts.get("compress"): kw["compress"] = tuple(opts["compress"]) if isinstance(opts["compress"], list) else opts["compress"]
     if opts.get("mmap"): kw["mmap_mode"] = opts["mmap"]
     mem = joblib.Memory(spec["root"], verbose=int(opts.get("verbose", 0)), **kw)     # (progress messages go to stdout: non-JSON lines are skipped by the reader of the output)
     ckw = {}
